@@ -123,6 +123,10 @@ pub struct CfgSpec {
     pub files: Vec<Value>,
     /// some key is both a value and a prefix of another key (outside the merge reference model)
     pub value_and_prefix: bool,
+    /// how many of the leading configurations are written to disk and loaded as files (the rest is
+    /// passed as in-memory partial configurations, as the language server does for client settings)
+    #[serde(default)]
+    pub as_files: usize,
 }
 
 const SCALAR_KEYS: &[(&str, &[&str])] = &[
@@ -170,17 +174,127 @@ fn set_key(obj: &mut serde_json::Map<String, Value>, dotted: &str, v: Value, fla
     }
 }
 
+/// The whole key space of the real configuration type, derived from `Emmyrc::default()`:
+/// (scalar keys with candidate values, array keys with candidate items, pairs of sibling keys
+/// where one name is a textual prefix of the other). A candidate is kept only if a configuration
+/// that sets just that key deserializes and serializes back to the same value, so every generated
+/// file is a valid configuration whatever the key.
+type SchemaKeys = (Vec<(String, Vec<Value>)>, Vec<(String, Vec<Value>)>, Vec<(String, String)>);
+
+fn schema_keys() -> &'static SchemaKeys {
+    static KEYS: std::sync::OnceLock<SchemaKeys> = std::sync::OnceLock::new();
+    KEYS.get_or_init(|| {
+        let def = serde_json::to_value(emmylua_code_analysis::Emmyrc::default()).unwrap_or(Value::Null);
+        let mut flat = Vec::new();
+        flatten("", &def, &mut flat);
+        let round_trips = |k: &str, v: &Value| -> bool {
+            let mut obj = serde_json::Map::new();
+            set_key(&mut obj, k, v.clone(), false);
+            let Ok(e) = serde_json::from_value::<emmylua_code_analysis::Emmyrc>(Value::Object(obj)) else { return false };
+            let back = serde_json::to_value(e).unwrap_or(Value::Null);
+            let mut fb = Vec::new();
+            flatten("", &back, &mut fb);
+            fb.iter().any(|(k2, v2)| k2 == k && v2 == v)
+        };
+        let mut scalars = Vec::new();
+        let mut arrays = Vec::new();
+        for (k, v) in &flat {
+            if k.is_empty() || k.starts_with('$') {
+                continue;
+            }
+            match v {
+                Value::Bool(_) => scalars.push((k.clone(), vec![Value::Bool(true), Value::Bool(false)])),
+                Value::Number(n) if n.is_i64() || n.is_u64() => {
+                    let b = n.as_i64().unwrap_or(0);
+                    let c: Vec<Value> = [b, b + 1, b + 7].iter().map(|x| serde_json::json!(x)).filter(|x| round_trips(k, x)).collect();
+                    if c.len() >= 2 {
+                        scalars.push((k.clone(), c));
+                    }
+                }
+                Value::Null => {
+                    let c: Vec<Value> = [serde_json::json!("zz_s"), serde_json::json!("zz_t"), serde_json::json!(5), serde_json::json!(true)]
+                        .into_iter()
+                        .filter(|x| round_trips(k, x))
+                        .collect();
+                    if c.len() >= 2 {
+                        scalars.push((k.clone(), c));
+                    }
+                }
+                Value::Array(_) => {
+                    let items: Vec<Value> = ["zz_a", "zz_b", "zz_c", "zz_d"].iter().map(|x| serde_json::json!(x)).collect();
+                    if round_trips(k, &Value::Array(vec![items[0].clone(), items[1].clone()])) {
+                        arrays.push((k.clone(), items));
+                    }
+                }
+                _ => {}
+            }
+        }
+        let all: Vec<&String> = scalars.iter().map(|x| &x.0).chain(arrays.iter().map(|x| &x.0)).collect();
+        let mut pairs = Vec::new();
+        for a in &all {
+            for b in &all {
+                if a != b && b.starts_with(a.as_str()) && a.rsplit_once('.').map(|x| x.0) == b.rsplit_once('.').map(|x| x.0) {
+                    pairs.push(((*a).clone(), (*b).clone()));
+                }
+            }
+        }
+        (scalars, arrays, pairs)
+    })
+}
+
+fn schema_value(r: &mut simcore::Rng, key: &str) -> Option<Value> {
+    let (scalars, arrays, _) = schema_keys();
+    if let Some((_, c)) = scalars.iter().find(|x| x.0 == key) {
+        return Some(r.pick(c).clone());
+    }
+    if let Some((_, items)) = arrays.iter().find(|x| x.0 == key) {
+        let n = r.range(1, 3) as usize;
+        let mut arr = Vec::new();
+        for _ in 0..n {
+            let v = r.pick(items).clone();
+            if !arr.contains(&v) {
+                arr.push(v);
+            }
+        }
+        return Some(Value::Array(arr));
+    }
+    None
+}
+
 pub fn c32_generate(seed: u64) -> CfgSpec {
     let mut r = simcore::Rng::stream(seed, "workload");
     let nfiles = r.range(1, 3) as usize;
     let mut files = Vec::new();
     let mut vap = false;
-    for _ in 0..nfiles {
+    // a sixth of the cases: an earlier file sets the longer-named of two sibling keys whose
+    // names share a textual prefix (`globalsRegex` / `globals`), a later file the shorter one
+    let (sch_scalars, sch_arrays, sch_pairs) = schema_keys();
+    let sibling = if !sch_pairs.is_empty() && r.chance(1, 6) { Some(r.pick(sch_pairs).clone()) } else { None };
+    let nfiles = if sibling.is_some() { nfiles.max(2) } else { nfiles };
+    for fi in 0..nfiles {
         let mut obj = serde_json::Map::new();
         let nk = r.range(1, 6);
         let mut used: Vec<&str> = Vec::new();
+        if let Some((short, long)) = &sibling {
+            let key = if fi == 0 { long } else if fi == 1 { short } else { long };
+            if let Some(v) = schema_value(&mut r, key) {
+                set_key(&mut obj, key, v, r.chance(1, 2));
+            }
+        }
         for _ in 0..nk {
             let flat = r.chance(1, 2);
+            if r.chance(2, 5) {
+                // any key of the real configuration type
+                let key: &String = if r.chance(2, 3) && !sch_scalars.is_empty() { &r.pick(sch_scalars).0 } else if !sch_arrays.is_empty() { &r.pick(sch_arrays).0 } else { continue };
+                let top_used = flat_contains(&obj, key);
+                if top_used {
+                    continue;
+                }
+                if let Some(v) = schema_value(&mut r, key) {
+                    set_key(&mut obj, key, v, flat);
+                }
+                continue;
+            }
             if r.chance(3, 5) {
                 let (k, vals) = *r.pick(SCALAR_KEYS);
                 if used.contains(&k) {
@@ -218,7 +332,19 @@ pub fn c32_generate(seed: u64) -> CfgSpec {
         }
         files.push(Value::Object(obj));
     }
-    CfgSpec { seed, files, value_and_prefix: vap }
+    let as_files = match r.below(3) {
+        0 => 0,
+        1 => files.len(),
+        _ => r.usize_below(files.len() + 1),
+    };
+    CfgSpec { seed, files, value_and_prefix: vap, as_files }
+}
+
+/// Is the dotted key already set in `obj`, in either spelling?
+fn flat_contains(obj: &serde_json::Map<String, Value>, dotted: &str) -> bool {
+    let mut flat = Vec::new();
+    flatten("", &Value::Object(obj.clone()), &mut flat);
+    flat.iter().any(|(k, _)| k == dotted || k.starts_with(&format!("{dotted}.")) || dotted.starts_with(&format!("{k}.")))
 }
 
 fn flatten(prefix: &str, v: &Value, out: &mut Vec<(String, Value)>) {
@@ -286,15 +412,42 @@ pub fn c32_run(spec_v: &Value, verbose: bool) -> CaseReport {
     let mut outcomes: Vec<((u64, u64), String)> = Vec::new();
     for (hs, salt) in seeds_for(spec.seed, k) {
         let files = spec.files.clone();
+        let as_files = spec.as_files.min(files.len());
+        let run_dir = if as_files > 0 { Some(simcore::scratch::RunDir::acquire("c32", spec.seed)) } else { None };
+        let dir = run_dir.as_ref().map(|d| d.0.clone()).unwrap_or_default();
         let r = simcore::on_fresh_thread_salted(hs, salt, 16, move || {
-            let e = emmylua_code_analysis::load_configs(Vec::new(), Some(files));
+            let mut paths = Vec::new();
+            if as_files > 0 {
+                for (i, f) in files.iter().take(as_files).enumerate() {
+                    let p = dir.join(format!("cfg{i}.json"));
+                    let _ = std::fs::write(&p, serde_json::to_string_pretty(f).unwrap_or_default());
+                    paths.push(p);
+                }
+            }
+            let partial: Vec<Value> = files.iter().skip(as_files).cloned().collect();
+            let e = emmylua_code_analysis::load_configs(paths, if partial.is_empty() { None } else { Some(partial) });
             serde_json::to_string(&e).unwrap_or_default()
         });
+        drop(run_dir);
         outcomes.push(((hs, salt), r.unwrap_or_else(|e| format!("panicked: {}", e.chars().take(120).collect::<String>()))));
     }
     let mut violations = Vec::new();
     let mut counters = BTreeMap::new();
     counters.insert("hash_seeds_swept".to_string(), k as u64);
+    if spec.as_files > 0 {
+        counters.insert("loaded_from_files_on_disk".to_string(), 1);
+    }
+    {
+        let (sc, ar, pairs) = schema_keys();
+        let mut flat = Vec::new();
+        for f in &spec.files {
+            flatten("", f, &mut flat);
+        }
+        if pairs.iter().any(|(a, b)| flat.iter().any(|(k, _)| k == a) && flat.iter().any(|(k, _)| k == b)) {
+            counters.insert("sibling_keys_with_shared_name_prefix".to_string(), 1);
+        }
+        counters.insert(format!("schema.key_space:scalar_keys={},array_keys={},sibling_prefix_pairs={} (runs)", sc.len(), ar.len(), pairs.len()), 1);
+    }
     let distinct: std::collections::BTreeSet<&String> = outcomes.iter().map(|o| &o.1).collect();
     let panics = outcomes.iter().filter(|o| o.1.starts_with("panicked")).count();
     if distinct.len() > 1 {
@@ -595,6 +748,53 @@ pub fn c35_run(spec_v: &Value, verbose: bool) -> CaseReport {
             for std_name in ["stringlib", "io", "file*", "tablelib", "oslib"] {
                 if names.iter().any(|n| n == std_name) {
                     violations.push(("C35:std-entity-exported".into(), format!("std type {std_name} exported")));
+                }
+            }
+            // modules: every main-workspace file whose chunk returns a value is a module, listed
+            // exactly once (by file); nothing from the library root
+            let modules = doc.get("modules").and_then(|t| t.as_array()).cloned().unwrap_or_default();
+            let module_files: Vec<String> = modules.iter().filter_map(|m| m.get("file").and_then(|f| f.as_str()).map(|s| s.to_string())).collect();
+            counters.insert("exported_modules".to_string(), module_files.len() as u64);
+            for (f, v) in spec.files.iter().zip(&spec.variants) {
+                let text = crate::ws::file_text(&f.kind, f.n, *v);
+                let is_lib = f.rel.starts_with("lib/");
+                let n = module_files.iter().filter(|p| p.ends_with(&format!("/{}", f.rel)) || (is_lib && p.ends_with(&format!("/lib/{}", f.rel.trim_start_matches("lib/"))))).count();
+                if is_lib {
+                    if n > 0 {
+                        violations.push(("C35:library-entity-exported".into(), format!("module of library file {} is exported", f.rel)));
+                    }
+                    continue;
+                }
+                // judged: a chunk that ends in `return <one expression>`. A chunk returning several
+                // values gets no export type from the analysis at all (only single-expression
+                // return points are considered), so whether it "declares a module" is not settled
+                // by the statement; counted, not judged.
+                let last_ret = text.lines().rev().find(|l| l.starts_with("return ")).unwrap_or("");
+                let single = {
+                    let mut depth = 0i32;
+                    let mut top_comma = false;
+                    for ch in last_ret.chars() {
+                        match ch {
+                            '(' | '{' | '[' => depth += 1,
+                            ')' | '}' | ']' => depth -= 1,
+                            ',' if depth == 0 => top_comma = true,
+                            _ => {}
+                        }
+                    }
+                    !top_comma
+                };
+                if !last_ret.is_empty() && !single {
+                    *counters.entry("not_judged.multi_value_chunk_return".to_string()).or_insert(0) += 1;
+                }
+                let returns_value = !last_ret.is_empty() && last_ret.trim() != "return" && single;
+                let parses = !matches!(f.kind.as_str(), "broken");
+                if n > 1 {
+                    violations.push(("C35:duplicate:module".into(), format!("module file {} exported {n} times", f.rel)));
+                } else if n == 0 && returns_value && parses && !text.starts_with("---@meta") {
+                    let ret = text.lines().rev().find(|l| l.starts_with("return ")).unwrap_or("");
+                    violations.push(("C35:missing:module".into(), format!("main-workspace file {} returns a value (`{ret}`) but is not among the exported modules", f.rel)));
+                } else if n == 1 {
+                    *counters.entry("modules_found_exactly_once".to_string()).or_insert(0) += 1;
                 }
             }
             // globals exactly once per declaration site
